@@ -874,32 +874,51 @@ func simplifyLambda(expression b6.Expression, functions SymbolArgCounts, bound [
 	inner := make([]string, 0, len(bound)+len(lambda.Args))
 	inner = append(append(inner, bound...), lambda.Args...)
 	lambda.Expression = simplify(lambda.Expression, functions, inner)
-	// '{a -> area a}' is semantically equivalent to 'area'
-	if call, ok := lambda.Expression.AnyExpression.(b6.CallExpression); ok && len(lambda.Args) > 0 {
-		i := 0
-		for i < len(lambda.Args) && i < len(call.Args) {
-			if s, ok := call.Args[i].AnyExpression.(b6.SymbolExpression); ok {
-				if s.String() != lambda.Args[i] {
-					break
-				}
-			} else {
-				break
-			}
-			i++
+	expression.AnyExpression = lambda
+	// '{a -> area a}' is semantically equivalent to 'area', and
+	// '{f -> tag f "name"}' to 'tag "name"', since a call with too few
+	// arguments binds the trailing ones. That holds when the function is a
+	// global one that takes exactly the arguments it's given (otherwise the
+	// lambda and the function differ in the number of arguments they
+	// accept), the lambda's arguments are passed first, in order, and
+	// aren't otherwise used.
+	call, ok := lambda.Expression.AnyExpression.(b6.CallExpression)
+	if !ok || len(lambda.Args) == 0 || len(call.Args) < len(lambda.Args) {
+		return expression
+	}
+	symbol, ok := call.Function.AnyExpression.(b6.SymbolExpression)
+	if !ok || isBound(symbol, inner) {
+		return expression
+	}
+	n, ok := functions.ArgCount(symbol)
+	if v, _ := functions.IsVariadic(symbol); !ok || v || n != len(call.Args) {
+		return expression
+	}
+	for i, name := range lambda.Args {
+		if s, ok := call.Args[i].AnyExpression.(b6.SymbolExpression); !ok || s.String() != name {
+			return expression
 		}
-		if i > 0 {
-			if i == len(call.Args) {
-				return simplify(call.Function, functions, bound)
+		for j := 0; j < i; j++ {
+			if lambda.Args[j] == name {
+				return expression
 			}
-			s := expression
-			s.AnyExpression = b6.CallExpression{
-				Function: call.Function,
-				Args:     call.Args[i:len(call.Args)],
-			}
-			return simplifyCall(s, functions, bound)
 		}
 	}
-	return expression
+	remaining := call.Args[len(lambda.Args):len(call.Args)]
+	for _, arg := range remaining {
+		if usesAnyOf(arg, lambda.Args) {
+			return expression
+		}
+	}
+	if len(remaining) == 0 {
+		return call.Function
+	}
+	s := expression
+	s.AnyExpression = b6.CallExpression{
+		Function: call.Function,
+		Args:     remaining,
+	}
+	return s
 }
 
 func simplifyQuery(query b6.Query) b6.Query {
